@@ -146,30 +146,53 @@ def memref_ty(o):
     return f"memref<{shp}x{o['el']}{layout_text(o.get('layout'))}, \"L1\">"
 
 
-def mlir(case):
+def op_text(case, k):
+    """one dart.schedule op (operands %a{k}_{i}) and the list of its operand types"""
     ops = case["operands"]
     n = len(ops)
     acc, kernel, _ = TEMPLATES[case["template"]]
     tys = [memref_ty(o) for o in ops]
-    args = ", ".join(f"%a{i} : {t}" for i, t in enumerate(tys))
     pats = ", ".join(pattern_text(case, o) for o in ops)
     bstr = ", ".join(f"{b} : index" for b in case["bounds"])
     accs = f'accelerator = "{acc}", ' if acc else ""
     nin = max(n - 1, 0)
-    sargs = ", ".join(f"%s{i} : !dart.stream<{o['el']}>" for i, o in enumerate(ops))
+    sargs = ", ".join(f"%s{k}_{i} : !dart.stream<{o['el']}>" for i, o in enumerate(ops))
     st0 = f"!dart.stream<{ops[0]['el']}>"
-    return f'''func.func @f({args}) {{
-  "dart.schedule"({", ".join(f"%a{i}" for i in range(n))}) <{{patterns = [{pats}], {accs}tiles = [[]], bounds = [{bstr}], operandSegmentSizes = array<i32: {nin}, {n - nin}>}}> ({{
+    text = f'''  "dart.schedule"({", ".join(f"%a{k}_{i}" for i in range(n))}) <{{patterns = [{pats}], {accs}tiles = [[]], bounds = [{bstr}], operandSegmentSizes = array<i32: {nin}, {n - nin}>}}> ({{
   ^bb0({sargs}):
-    %r = "dart.generic"(%s0, %s0) <{{library_call = "k"}}> ({{
-    ^bb1(%x : i8, %y : i8, %z : i32):
-      %k = {KERNELS[kernel]}
-      dart.yield %k : i32
+    %r{k} = "dart.generic"(%s{k}_0, %s{k}_0) <{{library_call = "k"}}> ({{
+    ^bb1(%x{k} : i8, %y{k} : i8, %z{k} : i32):
+      %k{k} = {KERNELS[kernel].replace("%x", f"%x{k}").replace("%y", f"%y{k}").replace("%z", f"%z{k}")}
+      dart.yield %k{k} : i32
     }}) : ({st0}, {st0}) -> !dart.stream<i32>
-    dart.yield %r : !dart.stream<i32>
+    dart.yield %r{k} : !dart.stream<i32>
   }}) : ({", ".join(tys)}) -> ()
-  func.return
-}}'''
+'''
+    return text, tys
+
+
+def mlir_ops(op_cases, split=False):
+    """a module with all the ops: in one function, or (split) one function per op"""
+    parts = [op_text(c, k) for k, c in enumerate(op_cases)]
+    if split:
+        out = []
+        for k, (text, tys) in enumerate(parts):
+            args = ", ".join(f"%a{k}_{i} : {t}" for i, t in enumerate(tys))
+            out.append(f"func.func @f{k}({args}) {{\n{text}  func.return\n}}")
+        return "\n".join(out)
+    args = ", ".join(f"%a{k}_{i} : {t}" for k, (_, tys) in enumerate(parts) for i, t in enumerate(tys))
+    return f"func.func @f({args}) {{\n" + "".join(text for text, _ in parts) + "  func.return\n}"
+
+
+def mlir(case):
+    return mlir_ops([case])
+
+
+def runs_of(case):
+    """a case as a list of pass runs, each run = (list of op cases, split into functions?)"""
+    if case["kind"] == "schedule":
+        return [([case], False)]
+    return [([dict(o, tiled=case["tiled"], kind="schedule") for o in r["ops"]], bool(r.get("split"))) for r in case["runs"]]
 
 
 # ------------------------------------------------------------------------------------------------
@@ -352,6 +375,92 @@ def gen_schedule_exprs(rng):
     return c
 
 
+def strip_op(c):
+    return {k: v for k, v in c.items() if k not in ("kind", "tiled")}
+
+
+def reshape_operand(rng, o, grow):
+    """the same operand (pattern, element type) on a buffer of a different shape"""
+    shape = list(o["shape"])
+    for _ in range(rng.choice([1, 1, 2])):
+        j = rng.randrange(len(shape))
+        if grow:
+            shape[j] = shape[j] + rng.choice([1, 2, 4, 8]) if rng.random() < 0.5 else shape[j] * rng.choice([2, 3])
+        else:
+            shape[j] = max(1, shape[j] // rng.choice([2, 3]) if rng.random() < 0.5 else shape[j] - rng.choice([1, 2]))
+    while int(np.prod(shape)) > MAX_BOX:
+        j = max(range(len(shape)), key=lambda j: shape[j])
+        shape[j] = max(1, shape[j] // 2)
+    return dict(o, shape=shape)
+
+
+def gen_small_schedule(rng):
+    for _ in range(20):
+        c = gen_schedule(rng)
+        if len(c["operands"]) <= 3 and all(int(np.prod(o["shape"])) <= 2048 for o in c["operands"]):
+            return c
+    return c
+
+
+def gen_multi(rng):
+    """ONE process, ONE OR MORE pass runs, SEVERAL dart.schedule ops per module: whatever the pattern, the pass or a module
+    global remembers from one operand / op / run must not change the layout of another one. The ops share as much as possible
+    (access maps, bounds, element types, accelerator) and differ in ONE thing, most often the operand shapes, in both orders."""
+    base = gen_small_schedule(rng)
+    tiled = base["tiled"]
+    mode = rng.choice(["shape", "shape", "shape", "intra", "key", "key", "random", "dup"])
+    ops = [strip_op(base)]
+    if mode == "shape":
+        for _ in range(rng.choice([1, 1, 2])):
+            grow = rng.random() < 0.6
+            ops.append(dict(ops[0], operands=[reshape_operand(rng, o, grow) if rng.random() < 0.8 else dict(o)
+                                              for o in ops[0]["operands"]]))
+    elif mode == "intra":       # two operands of ONE op with the same access map and element type, different shapes
+        o = rng.choice(ops[0]["operands"])
+        extra = reshape_operand(rng, o, rng.random() < 0.6)
+        opnds = list(ops[0]["operands"])
+        opnds.insert(rng.randrange(len(opnds) + 1), extra)
+        ops = [dict(ops[0], operands=opnds[:4])]
+        if rng.random() < 0.5:
+            ops.append(dict(ops[0], operands=[reshape_operand(rng, x, True) for x in ops[0]["operands"]]))
+    elif mode == "key":         # same shapes (or not), ONE other ingredient of the layout differs
+        v = dict(ops[0], operands=[dict(o) for o in ops[0]["operands"]])
+        what = rng.choice(["el", "template", "bounds", "coef"])
+        if what == "el":
+            for o in v["operands"]:
+                o["el"] = rng.choice([e for e in ("i8", "i16", "i32", "f64") if e != o["el"]])
+        elif what == "template":
+            v["template"] = rng.choice([t for t in ("alu", "gemmx_mac", "gemmx_add") if t != v["template"]])
+        elif what == "bounds":
+            k = rng.randrange(len(v["bounds"]))
+            v["bounds"] = list(v["bounds"])
+            v["bounds"][k] = rng.choice([b for b in (1, 2, 3, 4, 6, 8) if b != v["bounds"][k]])
+        else:
+            o = rng.choice(v["operands"])
+            if "A" in o:
+                A = [list(r) for r in o["A"]]
+                j, k = rng.randrange(len(A)), rng.randrange(len(A[0]))
+                A[j][k] = rng.choice([c for c in (0, 1, 2, 3) if c != A[j][k]])
+                o["A"] = A
+        if rng.random() < 0.4:
+            v["operands"] = [reshape_operand(rng, o, rng.random() < 0.5) for o in v["operands"]]
+        ops.append(v)
+    elif mode == "random":
+        for _ in range(rng.choice([1, 2])):
+            ops.append(strip_op(gen_small_schedule(rng)))
+        if rng.random() < 0.3:
+            ops.append(strip_op(dict(gen_explicit(rng))))
+    else:                       # exact duplicates (sharing an analysis is harmless here)
+        ops.append(dict(ops[0]))
+    rng.shuffle(ops)
+    split = rng.random() < 0.25
+    if len(ops) > 1 and rng.random() < 0.3:   # the same ops, but one pass run (one module) each, in this process, in order
+        runs = [{"ops": [o], "split": False} for o in ops]
+    else:
+        runs = [{"ops": ops, "split": split}]
+    return {"kind": "multi", "mode": mode, "tiled": tiled, "runs": runs}
+
+
 def row_major_tsl(shape):
     lay = []
     s = 1
@@ -445,7 +554,8 @@ class C09(Prop):
     rule = ("random dart.schedule ops: 1-6 schedule dims, 1-4 operands of rank 1-4, scheduler-like mixed-radix patterns and random "
             "patterns (coefficients 1,2,3,4,8,-1, reduction/broadcast dims, 5% diagonal), shapes = access extent / padded / unrelated, "
             "8 element types, 3 accelerator templates, tiled in {true,false}; plus explicit-layout, malformed, canonicalize, address-map and "
-            "granularity streams; non-trivial = a layout with a tile (depth>1), a granularity gap, or a raised/untouched outcome; "
+            "granularity streams, affine-expression patterns, and `multi` cases (several ops per module and several pass runs per process that share "
+            "maps/bounds/element types/accelerator and differ in one ingredient, both orders); non-trivial = a layout with a tile (depth>1), a granularity gap, or a raised/untouched outcome; "
             "thorough adds the exhaustive space: every 0/1/2/3-coefficient assignment of 2 schedule dims (bounds in {2,3,4}) to a rank-2 operand, "
             "shapes = extent, widths 8/32, both modes")
 
@@ -460,6 +570,8 @@ class C09(Prop):
             yield gen_schedule_exprs(rng)
         for _ in range(120 if q else 1500):
             yield gen_malformed(rng)
+        for _ in range(220 if q else 3000):
+            yield gen_multi(rng)
         for _ in range(150 if q else 3000):
             yield {"kind": "canon", "strides": gen_strides(rng, zeros=True)}
         for _ in range(100 if q else 2000):
@@ -485,7 +597,7 @@ class C09(Prop):
     # -- real code ------------------------------------------------------------------------
     def impl(self, case):
         k = case["kind"]
-        if k == "schedule":
+        if k in ("schedule", "multi"):
             return self.impl_schedule(case)
         if k == "canon":
             from snaxc.ir.tsl import Stride, TiledStride
@@ -500,13 +612,24 @@ class C09(Prop):
         raise ValueError(k)
 
     def impl_schedule(self, case):
+        """kind schedule: one op, one run. kind multi: several runs IN THIS PROCESS, IN ORDER, each over a module
+        with several ops (state kept by the pattern / the pass / the module must not leak between operands, ops, runs)"""
+        outs = []
+        for op_cases, split in runs_of(case):
+            outs.append(self.run_once(op_cases, split, case["tiled"], whole_text=case["kind"] == "schedule"))
+        if case["kind"] == "schedule":
+            return outs[0][0]
+        return {"runs": outs}
+
+    def run_once(self, op_cases, split, tiled, whole_text):
         import snaxrun
         from snaxc.dialects import dart
         from snaxc.dialects.snax import LayoutCast
         from snaxc.dialects.tsl import TiledStridedLayoutAttr
-        src = mlir(case)
+        from xdsl.ir import BlockArgument
+        src = mlir_ops(op_cases, split)
         before = snaxrun.text(snaxrun.parse(src))
-        passes = "set-memory-layout{tiled=%s}" % ("true" if case["tiled"] else "false")
+        passes = "set-memory-layout{tiled=%s}" % ("true" if tiled else "false")
         try:
             with time_limit(10):         # normal run time: ~15 ms
                 out = snaxrun.run_passes(src, passes)
@@ -521,26 +644,46 @@ class C09(Prop):
                     C09._confirmed_timeouts += 1
                     raise
         mod = snaxrun.parse(out)
-        casts = [op for op in mod.walk() if isinstance(op, LayoutCast)]
         scheds = [op for op in mod.walk() if isinstance(op, dart.ScheduleOp)]
-        assert len(scheds) == 1
-        sched = scheds[0]
-        if not casts:
-            return {"layouts": None, "unchanged": snaxrun.text(mod) == before}
-        fargs = list(sched.parent_block().args)
-        layouts = []
-        wiring = []
-        for i, c in enumerate(casts):
-            lay = c.dest.type.layout
-            assert isinstance(lay, TiledStridedLayoutAttr)
-            assert lay.data.offset == 0
-            layouts.append([[[s.step, s.bound] for s in ts.strides] for ts in lay.data.tstrides])
-            st, dt = c.source.type, c.dest.type
-            wiring.append(bool(
-                c.source is fargs[i] and i < len(sched.operands) and sched.operands[i] is c.dest
-                and st.get_shape() == dt.get_shape() and st.get_element_type() == dt.get_element_type()
-                and st.memory_space == dt.memory_space and list(st.get_shape()) == list(case["operands"][i]["shape"])))
-        return {"layouts": layouts, "wired": all(wiring) and len(casts) == len(case["operands"])}
+        assert len(scheds) == len(op_cases)
+        n_casts = len([op for op in mod.walk() if isinstance(op, LayoutCast)])
+        res = []
+        used_casts = 0
+        offset = 0
+        for sched, oc in zip(scheds, op_cases):
+            fargs = list(sched.parent_block().args)
+            first_arg = 0 if split else offset      # position of this op's first operand among the function arguments
+            offset += len(oc["operands"])
+            owners = [o.owner for o in sched.operands]
+            if not any(isinstance(w, LayoutCast) for w in owners):
+                same = all(isinstance(o, BlockArgument) for o in sched.operands)
+                res.append({"layouts": None, "unchanged": (snaxrun.text(mod) == before) if whole_text else same})
+                continue
+            layouts = []
+            wiring = []
+            for i, (opnd, w) in enumerate(zip(sched.operands, owners)):
+                if not isinstance(w, LayoutCast):
+                    wiring.append(False)
+                    layouts.append(None)
+                    continue
+                used_casts += 1
+                lay = w.dest.type.layout
+                assert isinstance(lay, TiledStridedLayoutAttr)
+                assert lay.data.offset == 0
+                layouts.append([[[s.step, s.bound] for s in ts.strides] for ts in lay.data.tstrides])
+                st, dt = w.source.type, w.dest.type
+                wiring.append(bool(
+                    first_arg + i < len(fargs) and w.source is fargs[first_arg + i]
+                    and w.parent_block() is sched.parent_block()
+                    and st.get_shape() == dt.get_shape() and st.get_element_type() == dt.get_element_type()
+                    and st.memory_space == dt.memory_space and i < len(oc["operands"])
+                    and list(st.get_shape()) == list(oc["operands"][i]["shape"])))
+            res.append({"layouts": layouts, "wired": all(wiring) and len(sched.operands) == len(oc["operands"])})
+        if used_casts != n_casts:       # a cast that feeds no schedule operand
+            for r in res:
+                if "wired" in r:
+                    r["wired"] = False
+        return res
 
     _ENSURE_OPS = {}
     _confirmed_timeouts = 0
@@ -560,24 +703,40 @@ class C09(Prop):
         return {"stride": int(ensure_access_granularity(ctx, case["s"], case["k"], op, op.operands[0]))}
 
     # -- model ----------------------------------------------------------------------------
+    def op_requests(self, case):
+        ops, mops = [], []
+        for o in case["operands"]:
+            lay = o.get("layout")
+            common = {"shape": o["shape"], "elBits": EL_BITS[o["el"]], "hasTsl": bool(lay and lay[0] == "tsl")}
+            if "A" in o:
+                ops.append(dict(common, ndims=o.get("ndims", case["ndims"]), rows=o["A"]))
+            # what the pass reads from the IR: the pattern attribute as parsed by xDSL
+            nd, exprs = parsed_exprs(pattern_text(case, o))
+            mops.append(dict(common, ndims=nd, exprs=exprs))
+        hdr = {"fixed": FIXED_MODEL, "tiled": case["tiled"], "spatial": TEMPLATES[case["template"]][2],
+               "bounds": case["bounds"]}
+        reqs = [{"fn": "c09.rewritemaps", "args": dict(hdr, ops=mops)}]
+        if len(ops) == len(case["operands"]):
+            reqs.append({"fn": "c09.rewrite", "args": dict(hdr, ops=ops)})
+        return reqs
+
+    def op_model(self, answers):
+        r = answers[0]["ok"]
+        # the front-end model (affine maps) and the matrix model must agree
+        if len(answers) > 1 and canon_json_local(answers[1]["ok"]) != canon_json_local(r):
+            return {"model_split": {"maps": r, "matrix": answers[1]["ok"]}}
+        if "raised" in r:
+            return {"raised": r["raised"]}
+        if r["layouts"] is None:
+            return {"layouts": None, "unchanged": True}
+        return {"layouts": r["layouts"], "wired": True}
+
     def requests(self, case):
         k = case["kind"]
         if k == "schedule":
-            ops, mops = [], []
-            for o in case["operands"]:
-                lay = o.get("layout")
-                common = {"shape": o["shape"], "elBits": EL_BITS[o["el"]], "hasTsl": bool(lay and lay[0] == "tsl")}
-                if "A" in o:
-                    ops.append(dict(common, ndims=o.get("ndims", case["ndims"]), rows=o["A"]))
-                # what the pass reads from the IR: the pattern attribute as parsed by xDSL
-                nd, exprs = parsed_exprs(pattern_text(case, o))
-                mops.append(dict(common, ndims=nd, exprs=exprs))
-            hdr = {"fixed": FIXED_MODEL, "tiled": case["tiled"], "spatial": TEMPLATES[case["template"]][2],
-                   "bounds": case["bounds"]}
-            reqs = [{"fn": "c09.rewritemaps", "args": dict(hdr, ops=mops)}]
-            if len(ops) == len(case["operands"]):
-                reqs.append({"fn": "c09.rewrite", "args": dict(hdr, ops=ops)})
-            return reqs
+            return self.op_requests(case)
+        if k == "multi":
+            return [r for op_cases, _ in runs_of(case) for oc in op_cases for r in self.op_requests(oc)]
         if k == "canon":
             return [{"fn": "c09.canon", "args": {"strides": case["strides"]}}]
         if k == "addr":
@@ -594,14 +753,21 @@ class C09(Prop):
         r = answers[0]["ok"]
         k = case["kind"]
         if k == "schedule":
-            # the front-end model (affine maps) and the matrix model must agree
-            if len(answers) > 1 and canon_json_local(answers[1]["ok"]) != canon_json_local(r):
-                return {"model_split": {"maps": r, "matrix": answers[1]["ok"]}}
-            if "raised" in r:
-                return {"raised": r["raised"]}
-            if r["layouts"] is None:
-                return {"layouts": None, "unchanged": True}
-            return {"layouts": r["layouts"], "wired": True}
+            return self.op_model(answers)
+        if k == "multi":
+            # the specification: every op of every run is rewritten as if it were alone (the pass keeps no state)
+            runs, pos = [], 0
+            for op_cases, _ in runs_of(case):
+                outs = []
+                for oc in op_cases:
+                    n = len(self.op_requests(oc))
+                    outs.append(self.op_model(answers[pos:pos + n]))
+                    pos += n
+                raised = [o for o in outs if "raised" in o]
+                if raised:      # the walker visits the ops in order: the first exception ends the run
+                    return {"raised": raised[0]["raised"]}
+                runs.append(outs)
+            return {"runs": runs}
         if k == "canon":
             return {"strides": r}
         if k == "addr":
@@ -642,8 +808,33 @@ class C09(Prop):
             if not np.array_equal(dim_addresses(a, size), dim_addresses(b, size)):
                 return [{"what": f"TiledStride.canonicalize changed the address function: {a} -> {b}", "finding": None}]
             return []
+        if k == "addr":
+            if "raised" in impl_out:
+                return [{"what": f"get_affine_map raised {impl_out['raised']} on the static layout {case['layout']}", "finding": None}]
+            for pt, a in zip(case["pts"], impl_out["addrs"]):
+                if a != point_address(case["layout"], pt):
+                    return [{"what": f"get_affine_map of {case['layout']} sends element {pt} to {a}, the layout means "
+                                     f"{point_address(case['layout'], pt)}", "finding": None}]
+            return []
+        if k == "multi":
+            if "raised" in impl_out:
+                all_ok = all(wellformed(oc) or any(o.get("layout") and o["layout"][0] == "tsl" for o in oc["operands"])
+                             for op_cases, _ in runs_of(case) for oc in op_cases)
+                if all_ok or impl_out["raised"] == "PassTimeout":
+                    return [{"what": f"set-memory-layout raised {impl_out['raised']} on a module of well-formed schedules: "
+                                     f"{impl_out.get('msg')}", "finding": None}]
+                return []
+            out = []
+            for r, ((op_cases, _), outs) in enumerate(zip(runs_of(case), impl_out["runs"])):
+                for j, (oc, o) in enumerate(zip(op_cases, outs)):
+                    for v in self.op_oracle(oc, o):
+                        out.append(dict(v, what=f"pass run {r}, dart.schedule #{j} of the module: " + v["what"]))
+            return out
         if k != "schedule":
             return []
+        return self.op_oracle(case, impl_out)
+
+    def op_oracle(self, case, impl_out):
         out = []
         ops = case["operands"]
         has_tsl = any(o.get("layout") and o["layout"][0] == "tsl" for o in ops)
@@ -669,6 +860,9 @@ class C09(Prop):
         prng = case_rng(case)
         for i, (o, lay) in enumerate(zip(ops, impl_out["layouts"])):
             shape = o["shape"]
+            if lay is None:
+                out.append({"what": f"operand {i}: no layout_cast although the op was rewritten", "finding": None})
+                continue
             if len(lay) != len(shape):
                 out.append({"what": f"operand {i}: layout has {len(lay)} dims, memref has {len(shape)}", "finding": None})
                 continue
@@ -696,13 +890,30 @@ class C09(Prop):
                 if prods == list(shape) and (len(vals) != len(addrs) or tsl.self_overlaps()):
                     out.append({"what": f"operand {i}: TiledStridedLayout.all_values() has {len(vals)} entries / overlaps "
                                         f"for shape {list(shape)}", "finding": None})
-                # the harness' address function agrees with the compiler's own get_affine_map on sampled elements
+                # the compiler's own address map of the chosen layout (get_affine_map, what dart-layout-resolution uses):
+                # sampled elements everywhere, every index of a dimension with >= 3 tile levels, and the whole box when
+                # it is small -- it must agree with the layout's meaning and (small boxes) be one-to-one itself
                 m = TiledStridedLayoutAttr(tsl).get_affine_map()
-                for _ in range(4):
-                    pt = [prng.randrange(n) for n in shape]
-                    if int(m.eval(pt, [])[0]) != point_address(lay, pt):
-                        out.append({"what": f"operand {i}: get_affine_map disagrees with the reference address at {pt}", "finding": None})
+                pts = [[prng.randrange(n) for n in shape] for _ in range(4)]
+                for d, strides in enumerate(lay):
+                    if len(strides) >= 3:
+                        base = [prng.randrange(n) for n in shape]
+                        pts += [base[:d] + [j] + base[d + 1:] for j in range(min(shape[d], 96))]
+                whole = int(np.prod(shape)) <= 256
+                if whole:
+                    pts = [list(p) for p in itertools.product(*[range(n) for n in shape])]
+                seen = {}
+                for pt in pts:
+                    a = int(m.eval(pt, [])[0])
+                    if a != point_address(lay, pt):
+                        out.append({"what": f"operand {i}: get_affine_map of the chosen layout {lay} sends element {pt} to {a}, "
+                                            f"the layout means {point_address(lay, pt)}", "finding": None})
                         break
+                    if whole and a in seen:
+                        out.append({"what": f"operand {i}: get_affine_map sends elements {seen[a]} and {pt} to the same address {a}",
+                                    "finding": None})
+                        break
+                    seen[a] = pt
         return out
 
     def nontrivial(self, case, impl_out):
@@ -711,7 +922,7 @@ class C09(Prop):
             if "raised" in impl_out or impl_out.get("layouts") is None:
                 return True
             for lay in impl_out["layouts"]:
-                if any(s is None or b is None for d in lay for s, b in d):
+                if lay is None or any(s is None or b is None for d in lay for s, b in d):
                     return True
                 flat = sorted((s, b) for d in lay for s, b in d)
                 cur = 1
@@ -736,11 +947,33 @@ class C09(Prop):
             if impl_out.get("layouts") is None:
                 return "schedule:untouched"
             return f"schedule:{'tiled' if case['tiled'] else 'untiled'}:{case['template']}"
+        if k == "multi":
+            return f"multi:{case.get('mode', '?')}:{len(case['runs'])}run"
         return k
 
     def shrink(self, case):
-        if case["kind"] != "schedule":
-            return
+        if case["kind"] == "schedule":
+            yield from self.op_shrink(case)
+        elif case["kind"] == "multi":
+            runs = case["runs"]
+            if len(runs) > 1:
+                for r in range(len(runs)):
+                    yield dict(case, runs=runs[:r] + runs[r + 1:])
+            for r, run in enumerate(runs):
+                ops = run["ops"]
+                if len(ops) > 1:
+                    for j in range(len(ops)):
+                        yield dict(case, runs=runs[:r] + [dict(run, ops=ops[:j] + ops[j + 1:])] + runs[r + 1:])
+                if run.get("split"):
+                    yield dict(case, runs=runs[:r] + [dict(run, split=False)] + runs[r + 1:])
+            for r, run in enumerate(runs):
+                for j, oc in enumerate(run["ops"]):
+                    for cand in self.op_shrink(dict(oc, kind="schedule", tiled=case["tiled"])):
+                        small = {k: v for k, v in cand.items() if k not in ("kind", "tiled")}
+                        yield dict(case, runs=runs[:r] + [dict(run, ops=run["ops"][:j] + [small] + run["ops"][j + 1:])]
+                                   + runs[r + 1:])
+
+    def op_shrink(self, case):
         ops = case["operands"]
         if len(ops) > 1:
             for i in range(len(ops)):
